@@ -60,10 +60,10 @@ META = dict(
                'real raw tables and is relational about undocumented caching; None == DEFERRED ("unknown")',
 )
 
-TYPES = ['deferred', 'int', 'int_in', 'real_shape', 'dt_tdef', 'dt_notdef', 'proc', 'dtname']
-D_TYPES = ['none', 'deferred', 'int', 'real_shape', 'dt_tdef', 'dt_notdef', 'proc', 'dtname']
+TYPES = ['deferred', 'def_shape', 'int', 'int_in', 'real_shape', 'dt_tdef', 'dt_notdef', 'proc', 'dtname']
+D_TYPES = ['none', 'deferred', 'def_shape', 'int', 'real_shape', 'dt_tdef', 'dt_notdef', 'proc', 'dtname']
 DIMS = ['absent', 'None', 'idx', 'colon']
-PARENTS = ['none', 'typed_b', 'typed_c', 'untyped']
+PARENTS = ['none', 'typed_b', 'typed_c', 'untyped', 'notdef']
 SCOPEMODES = ['none', 'own', 'parent']
 MEMBERS = {'b': 'int', 'c': 'real_shape'}
 CLASSES = ('ProcedureSymbol', 'DerivedTypeSymbol', 'Array', 'Scalar', 'DeferredTypeSymbol')
@@ -71,12 +71,13 @@ CLASSES = ('ProcedureSymbol', 'DerivedTypeSymbol', 'Array', 'Scalar', 'DeferredT
 
 # ------------------------------------------------------------------ reference model (pure python)
 def known(tag):
-    return tag not in (None, 'none', 'deferred')
+    """the data type is known (a DEFERRED data type that only carries a shape is not)"""
+    return tag not in (None, 'none', 'deferred', 'def_shape')
 
 
 def unk(tag):
-    """None and DEFERRED are one class"""
-    return tag if known(tag) else 'unknown'
+    """None and plain DEFERRED are one class"""
+    return 'unknown' if tag in (None, 'none', 'deferred') else tag
 
 
 def tier(tag, dims, name):
@@ -85,7 +86,7 @@ def tier(tag, dims, name):
         return 'ProcedureSymbol'
     if tag == 'dtname' and '%' not in name:
         return 'DerivedTypeSymbol'
-    if dims in ('idx', 'colon') or tag == 'real_shape':
+    if dims in ('idx', 'colon') or tag in ('real_shape', 'def_shape'):
         return 'Array'
     if known(tag):
         return 'Scalar'
@@ -108,7 +109,7 @@ def parent_type(R, pdesc):
     return chain(R, pdesc['scope'], 'p') if pdesc['scope'] is not None else pdesc['own']
 
 
-def visible(R, sidx, name, pdesc, raw=False):
+def visible(R, sidx, name, pdesc, raw=False, obj_only=False):
     """Type visible for `name` from scope `sidx`: table entry innermost-first; for p%m, if that is unknown,
     the member type from the parent's type definition (via the parent object, else via the name `p` in the scope)."""
     stored = chain(R, sidx, name)
@@ -117,7 +118,7 @@ def visible(R, sidx, name, pdesc, raw=False):
     member = name.split('%')[-1]
     if parent_type(R, pdesc) == 'dt_tdef':
         return MEMBERS[member]
-    if pdesc['scope'] != sidx and chain(R, sidx, 'p') == 'dt_tdef':
+    if not obj_only and pdesc['scope'] != sidx and chain(R, sidx, 'p') == 'dt_tdef':
         return MEMBERS[member]
     return stored
 
@@ -158,6 +159,8 @@ def mk(tag, basename):
     SA, BT = g['SA'], g['BT']
     if tag == 'deferred':
         return SA(BT.DEFERRED)
+    if tag == 'def_shape':
+        return SA(BT.DEFERRED, shape=(g['sym'].IntLiteral(3),))
     if tag == 'int':
         return SA(BT.INTEGER)
     if tag == 'int_in':
@@ -188,6 +191,9 @@ def tag_of(attr):
         extra += '!POISONED'
     if dt is BT.DEFERRED:
         base = 'deferred'
+        if 'shape' in d:
+            d.pop('shape')
+            base = 'def_shape'
     elif dt is BT.INTEGER:
         base = 'int_in' if d.pop('intent', None) == 'in' else 'int'
     elif dt is BT.REAL and 'shape' in d:
@@ -217,7 +223,7 @@ class World:
         self.inner = Scope(parent=self.outer)
         self.scopes = [self.outer, self.inner]
         self.child = parent != 'none'
-        self.name = {'none': 'x', 'typed_b': 'p%b', 'typed_c': 'p%c', 'untyped': 'p%b'}[parent]
+        self.name = {'none': 'x', 'typed_b': 'p%b', 'typed_c': 'p%c', 'untyped': 'p%b', 'notdef': 'p%c'}[parent]
         self.basename = self.name.split('%')[-1]
         self.names = [self.name] + (['p', 'p%b', 'p%c'] if self.child else [])
         self.names = list(dict.fromkeys(self.names))
@@ -227,10 +233,11 @@ class World:
             kw = dict(name='p')
             if att is not None:
                 kw['scope'] = self.inner
-            if parent != 'untyped':
-                kw['type'] = mk('dt_tdef', 'p')
+            ptype = {'untyped': None, 'notdef': 'dt_notdef'}.get(parent, 'dt_tdef')
+            if ptype:
+                kw['type'] = mk(ptype, 'p')
             self.P = sym.Variable(**kw)
-            self.pdesc = dict(scope=att, own=('dt_tdef' if parent != 'untyped' else None))
+            self.pdesc = dict(scope=att, own=ptype)
         if D != 'none' and scopemode != 'none':
             self.scopes[1 if scopemode == 'own' else 0].symbol_attrs[self.name] = mk(D, self.basename)
         self.syms = []     # real symbol objects
@@ -316,7 +323,7 @@ def apply(w, ev):
     """Execute one event on the real objects, compare with the reference model.
     Returns a list of (signature, detail)."""
     op = ev[0]
-    if op not in ('set', 'del', 'new', 'clone_type', 'clone', 'clone_detach', 'rescope'):
+    if op not in ('set', 'del', 'pset', 'new', 'clone_type', 'clone', 'clone_detach', 'rescope'):
         raise RuntimeError(f'unknown event {ev}')
     out = []
     R = w.raw()
@@ -340,6 +347,14 @@ def apply(w, ev):
             R1 = w.raw()
             if R1 != rwrite(R, s, nm, T):
                 out.append((f'table op=set type={T}: tables are not the old tables with exactly that entry replaced',
+                            f'before {R} after {R1}'))
+        elif op == 'pset':
+            # replace the type recorded for the parent `p` (with / without type definition); nothing is read afterwards
+            _, s, T = ev
+            w.scopes[s].symbol_attrs['p'] = mk(T, 'p')
+            R1 = w.raw()
+            if R1 != rwrite(R, s, 'p', T):
+                out.append((f'table op=pset type={T}: tables are not the old tables with exactly that entry replaced',
                             f'before {R} after {R1}'))
         elif op == 'del':
             _, s = ev
@@ -366,7 +381,11 @@ def apply(w, ev):
             if E is not None:
                 cands = [(E, rwrite(R, s, nm, E) if s is not None else R, (s, E) if s is not None else None)]
             elif s is not None:
-                cands = [(eff, R, None) for eff in alternatives(s)]
+                # created by name: the class follows the type recorded for the name, i.e. the table entry, and for an
+                # entry without data type the member type of the parent's type definition (parent = the object given;
+                # if that knows nothing, also the name `p` as seen from the scope)
+                a_, b_ = visible(R, s, nm, w.pdesc, obj_only=True), visible(R, s, nm, w.pdesc)
+                cands = [(a_, R, None)] + ([(b_, R, None)] if unk(a_) != unk(b_) else [])
             else:
                 cands = [(None, R, None)]
             new_desc = dict(dims=dims if dims in ('idx', 'colon') else None, scope=s, own=E if s is None else None)
@@ -509,6 +528,9 @@ def enabled(w, cfg):
         for E in [None] + cfg['E']:
             for dims in cfg['new_dims']:
                 evs.append(('new', s, E, dims))
+    if w.child and w.pdesc['scope'] == 1:
+        for T in ('dt_tdef', 'dt_notdef'):
+            evs.append(('pset', 1, T))
     for i in w.distinct():
         for T in U:
             evs.append(('clone_type', i, T))
@@ -530,7 +552,7 @@ def run_history(hist, strict_prefix=True):
     v = []
     for k, ev in enumerate(steps):
         v = apply(w, ev)
-        if not any(x[0] not in SOFT for x in v):
+        if not any(x[0] not in SOFT for x in v) and ev[0] != 'pset':
             v = v + sweep(w, ev[0])
         hard = [x for x in v if x[0] not in SOFT]
         if k < len(steps) - 1 and hard:
@@ -593,7 +615,7 @@ def run(ctx):
     logging.disable(logging.CRITICAL)
     if ctx.quick:
         cfg = dict(U=['int', 'int_in', 'real_shape', 'proc'], E=['int_in', 'real_shape'],
-                   E_cons=['int_in', 'real_shape', 'proc', 'dtname'], new_dims=['absent', 'idx'], depth=2)
+                   E_cons=['int_in', 'real_shape', 'proc', 'def_shape'], new_dims=['absent', 'idx'], depth=2)
     else:
         cfg = dict(U=['int', 'int_in', 'real_shape', 'proc'], E=['int_in', 'real_shape'],
                    E_cons=TYPES[:], new_dims=['absent', 'idx'], depth=3)
